@@ -45,6 +45,11 @@ type World struct {
 
 	Ledger *Ledger
 	Step   int
+
+	// Issuers lists every issuer this one provider serves (one entry unless the world is multi-tenant: issuer from
+	// the request host or from the Forwarded header of a reverse proxy). Issuer is the tenant the next request goes to.
+	Issuers    []string
+	IssuerMode string
 }
 
 // Ledger records artefacts honest parties emitted.
@@ -78,6 +83,9 @@ type StdOptions struct {
 	IssuerPath     string // e.g. "/oidc": the issuer carries a path and the provider is mounted below it
 	Options        []op.Option
 	Endpoints      *op.Endpoints
+	// Tenants > 1: the provider derives its issuer from each request (IssuerMode "host" or "forwarded", seeded if
+	// empty) and is reachable under that many host names
+	Tenants int
 }
 
 // NewStd builds the standard world from the "cfg" stream of the tape.
@@ -161,17 +169,63 @@ func NewStd(o *kernel.Outcome, tape *kernel.Tape, opt StdOptions) (*World, error
 	for _, id := range w.SortedClients() {
 		w.Store.Clients[id].LoginBase = w.Issuer + "/login"
 	}
-	node, err := BuildOP(w.Store, OPConfig{Router: w.Router, Issuer: w.Issuer, IssuerPath: opt.IssuerPath, IssuerMode: opt.IssuerMode, Config: w.Conf, Caps: w.Caps, Options: opts, Endpoints: opt.Endpoints})
+	w.IssuerMode = opt.IssuerMode
+	if opt.Tenants > 1 && w.IssuerMode == "" {
+		w.IssuerMode = tape.Sub("cfg-tenants").Pick("host", "forwarded")
+	}
+	node, err := BuildOP(w.Store, OPConfig{Router: w.Router, Issuer: w.Issuer, IssuerPath: opt.IssuerPath, IssuerMode: w.IssuerMode, Config: w.Conf, Caps: w.Caps, Options: opts, Endpoints: opt.Endpoints})
 	if err != nil {
 		return nil, err
 	}
 	w.OP = node
-	w.Net.Hosts["op.sim"] = node.Handler
+	hosts := []string{"op.sim"}
+	for i := 2; i <= opt.Tenants; i++ {
+		hosts = append(hosts, fmt.Sprintf("t%d.sim", i))
+	}
+	var h http.Handler = node.Handler
 	if opt.IssuerPath != "" {
-		w.Net.Hosts["op.sim"] = http.StripPrefix(opt.IssuerPath, node.Handler)
+		h = http.StripPrefix(opt.IssuerPath, node.Handler)
+	}
+	w.Issuers = nil
+	for _, host := range hosts {
+		w.Issuers = append(w.Issuers, "https://"+host+opt.IssuerPath)
+		if w.IssuerMode == "forwarded" {
+			w.Net.Hosts[host] = reverseProxy(host, h)
+		} else {
+			w.Net.Hosts[host] = h
+		}
 	}
 	w.Raw = w.Net.Client("raw", nil, false)
 	return w, nil
+}
+
+// reverseProxy plays the proxy in front of a provider that takes its issuer from the Forwarded header: every tenant
+// reaches the provider under the same internal Host; only the header tells them apart.
+func reverseProxy(publicHost string, h http.Handler) http.Handler {
+	return http.HandlerFunc(func(rw http.ResponseWriter, r *http.Request) {
+		r2 := r.Clone(r.Context())
+		r2.Host = "op.internal"
+		r2.Header.Set("Forwarded", "for=10.0.0.1;host="+publicHost+";proto=https")
+		h.ServeHTTP(rw, r2)
+	})
+}
+
+// UseIssuer directs the following requests to tenant i (login pages included).
+func (w *World) UseIssuer(i int) {
+	w.Issuer = w.Issuers[i%len(w.Issuers)]
+	for _, id := range w.SortedClients() {
+		w.Store.Clients[id].LoginBase = w.Issuer + "/login"
+	}
+}
+
+// IsIssuer tells whether s is one of the issuers this provider serves.
+func (w *World) IsIssuer(s string) bool {
+	for _, i := range w.Issuers {
+		if i == s {
+			return true
+		}
+	}
+	return false
 }
 
 var allGrants = []oidc.GrantType{oidc.GrantTypeCode, oidc.GrantTypeRefreshToken, oidc.GrantTypeClientCredentials, oidc.GrantTypeBearer,
@@ -503,7 +557,7 @@ func (p AuthParams) Values() url.Values {
 // response is a redirect to the login UI carrying the auth request id.
 func (w *World) Authorize(b *Browser, p AuthParams) (resp *Resp, authReqID string) {
 	resp = b.Get(w.Issuer + "/authorize?" + p.Values().Encode())
-	if resp.Err == nil && resp.Status == http.StatusFound && strings.HasPrefix(resp.Location, "https://op.sim/login?") {
+	if resp.Err == nil && resp.Status == http.StatusFound && strings.HasPrefix(resp.Location, w.Issuer+"/login?") {
 		u, _ := url.Parse(resp.Location)
 		authReqID = u.Query().Get("authRequestID")
 	}
